@@ -167,3 +167,15 @@ impl<T: DictionaryAccess> std::fmt::Debug for Morpheme<'_, T> {
             .finish()
     }
 }
+
+/// Verification hook: position of the morpheme in the normalised text
+#[cfg(feature = "verif")]
+impl<T: DictionaryAccess> Morpheme<'_, T> {
+    /// (begin char, end char, begin byte, end byte) in the normalised (rewritten) text
+    pub fn verif_node_range(&self) -> (usize, usize, usize, usize) {
+        use crate::analysis::node::LatticeNode;
+        let n = self.node();
+        let b = n.bytes_range();
+        (n.begin(), n.end(), b.start, b.end)
+    }
+}
